@@ -456,6 +456,18 @@ example : ∃ k fuel' a',
   C08_refines false (exCS exScript).dev.plugs 99 (exCS exScript) (exAction exScript none) [] ⟨[]⟩ [] none
     rfl rfl rfl (by decide) (exInv exScript exScript_good []) (by decide)
 
+/-- **The fuel of the mirror's inner loop is never the limit, and replacing the former literal 64 changed nothing where
+    64 was enough.**  For a well-formed configuration `innerLoop` gives the same result for every fuel that covers the
+    nesting depth of the statement the action stands at; `loopBound a` always does; so whenever that depth is at most 64
+    the mirror computes what it computed before, and beyond 64 it goes on as the unbounded C loop does. -/
+theorem C08_loop_fuel (R : Bool) (dp : List Plug) (now : Time) (d : Dev) (a : Action) (o : Oracle) (acc : List Out)
+    (hinv : Inv R dp d a) (hne : a.exec ≠ []) :
+    topDepth a ≤ loopBound a ∧
+    (∀ f, topDepth a ≤ f → innerLoop now f d a o acc = innerLoop now (loopBound a) d a o acc) ∧
+    (topDepth a ≤ 64 → innerLoop now (loopBound a) d a o acc = innerLoop now 64 d a o acc) :=
+  ⟨topDepth_le a, fun f hf => innerLoop_fuel_irrelevant R dp now f (loopBound a) d a o acc hinv hne hf (topDepth_le a),
+   fun h => innerLoop_fuel_irrelevant R dp now (loopBound a) 64 d a o acc hinv hne (topDepth_le a) h⟩
+
 /-- **A fresh action is well-formed** and denotes the unrolling of its whole script (non-empty blocks, any nesting depth). -/
 theorem C08_initial (R : Bool) (dp : List Plug) (script : List Stmt) (plugs : Option (List Plug))
     (hne : script ≠ []) (hnb : neBlock script = true) :
